@@ -36,7 +36,14 @@ class ReplayClient:
         line = self.p.stdout.readline()
         if not line:
             self.err.seek(0)
-            raise symx.HarnessError("replay server died on op " + op + ": " + self.err.read()[-1500:])
+            tail = self.err.read()[-600:]
+            rc = self.p.wait()
+            if rc is not None and rc < 0:
+                # the real interpreter was killed by a signal (e.g. SIGSEGV inside NumPy) while running the operation:
+                # that is an outcome of the operation on this input, not a harness problem
+                self.dead = True
+                return {"out": {"exc": "ProcessCrash", "msg": f"real interpreter died with signal {-rc} {tail}"}}
+            raise symx.HarnessError(f"replay server exited with status {rc} on op {op}: {tail}")
         return json.loads(line)
     def close(self):
         try:
@@ -50,7 +57,7 @@ _client_pid = None
 
 def replay(op, inputs):
     global _client, _client_pid
-    if _client is None or _client_pid != os.getpid() or _client.p.poll() is not None:
+    if _client is None or _client_pid != os.getpid() or _client.p.poll() is not None or getattr(_client, "dead", False):
         _client = ReplayClient()
         _client_pid = os.getpid()
     try:
